@@ -247,6 +247,7 @@ type pcase struct {
 	Size   int32
 	Token  string // "": walk the chain from the start; else start from this (corrupted) token
 	Masked bool   // the requests carry a read mask that leaves out the items' key
+	Then   int32  // != 0: every page after the first is requested with this page size instead
 }
 
 func limit(size int32) int {
@@ -272,11 +273,15 @@ func walk(l lister, c pcase, fail func(k, m string), tokens map[string]bool) {
 		if c.Masked {
 			clause += "(read mask without the key)"
 		}
+		if c.Then != 0 {
+			clause += fmt.Sprintf("(then page size %d)", c.Then)
+		}
 		return fmt.Sprintf("%s %s size=%d ids=[%s] token=%q", clause, c.Lister, c.Size, ids, c.Token)
 	}
+	size := c.Size
 	call := func(tok string) (p page, err error, pan any) {
 		defer func() { pan = recover() }()
-		p, err = list(c.Size, tok)
+		p, err = list(size, tok)
 		return
 	}
 	var all []string
@@ -304,9 +309,12 @@ func walk(l lister, c pcase, fail func(k, m string), tokens map[string]bool) {
 			}
 			return // a corrupted token may be rejected
 		}
-		if len(p.items) > limit(c.Size) {
-			fail(key("page-too-large"), fmt.Sprintf("page of %d items for page size %d", len(p.items), c.Size))
+		if len(p.items) > limit(size) {
+			fail(key("page-too-large"), fmt.Sprintf("page of %d items for page size %d", len(p.items), size))
 			return
+		}
+		if c.Then != 0 {
+			size = c.Then // a client may ask for a different page size on every call
 		}
 		if int(p.total) != len(want) {
 			fail(key("total-size"), fmt.Sprintf("total_size %d, collection holds %d", p.total, len(want)))
@@ -449,6 +457,19 @@ func main() {
 						tk = tokens
 					}
 					walk(l, c, func(k, m string) { s.Fail(k, m, c) }, tk)
+					if size > 0 && size <= 3 && len(ids) <= 60 {
+						// the same chain continued with another page size (larger, smaller, default, beyond the cap)
+						for _, then := range []int32{1, 3, 50, 1000, 5000} {
+							if then == size {
+								continue
+							}
+							ct := c
+							ct.Then = then
+							s.Eval(1)
+							s.Trans(1)
+							walk(l, ct, func(k, m string) { s.Fail(k, m, ct) }, nil)
+						}
+					}
 					if size > 0 && size <= 7 && len(ids) <= 60 {
 						// the same walk with a read mask that leaves the items' key out
 						cm := c
